@@ -112,6 +112,8 @@ def fam_interop(rng, i, roles=ROLES):
     }
     if p["bidi"] + p["uni"] + p["suni"] == 0:
         p["bidi"] = 1
+    if not p["q.pmtud"] and p["q.max_send_udp"] + 28 > p["net_mtu"]:
+        p["q.max_send_udp"] = 1200  # a static send size above the path MTU without PMTUD is a misconfigured peer, not a scenario
     if role == "s2n-client" and p["q.cid_len"] == 0:
         p["q.cid_len"] = 4          # zero-length connection ids are only sampled for the quiche CLIENT (as the in-tree test does)
     return {k: v for k, v in p.items() if not (isinstance(v, int) and v == 0 and k not in ("size", "bidi", "uni", "suni"))}
@@ -175,10 +177,11 @@ def o_c07(tr):
         return [("e2e:c07:hang", "harness process produced no trace within the wall-clock limit")]
     if tr.clock != "virtual=ok":
         return [("e2e:c07:setup-error", f"virtual clock self-test: {tr.clock}")]
+    hang = None
     if status == "panic" or tr.panics:
         bad.append(("e2e:c07:panic", f"{status} {msg[:200]} {tr.panics[:1]}"))
     elif status != "ok":
-        bad.append(("e2e:c07:hang", f"scenario did not terminate: {status} {msg[:200]}"))
+        hang = ("e2e:c07:hang", f"scenario did not terminate: {status} {msg[:200]}")
     apps = [r for r in tr.of("app") if r.ep == ep]
     # --- handshake ------------------------------------------------------------------------
     s2n_hs = any(r.what in ("connected", "accepted") for r in apps)
@@ -248,7 +251,7 @@ def o_c07(tr):
         q_reads = nb + (ns if role == "s2n-server" else nu)
         if len(s_eof) != s2n_reads or len(q_eof) != q_reads:
             over = oversize_for_s2n(tr)
-            if over:
+            if over:        # explains both an idle timeout and a crawl into the deadline
                 n_over, limit, declared = over
                 bad.append(("e2e:c07:undeclared-max-udp-payload-size",
                             f"s2n-quic (max_mtu={limit + 28}) discards UDP payloads above {limit} bytes but declared max_udp_payload_size={declared} "
@@ -258,6 +261,8 @@ def o_c07(tr):
             bad.append(("e2e:c07:eof-incomplete",
                         f"transfer incomplete at the end of the run: s2n-quic reached EOF on {len(s_eof)}/{s2n_reads} streams, "
                         f"quiche on {len(q_eof)}/{q_reads}; quiche closed: {cf}"))
+    if hang:
+        bad.append(hang)
     return bad
 
 
@@ -476,9 +481,30 @@ INT_FIELDS = ["max_idle_timeout", "max_udp_payload_size", "initial_max_data", "i
 
 def cross_parse_tp(tr, vh_core=None, driver=None):
     """returns (number of checks, [message]) for one trace"""
+    return cross_parse_tp_many([tr], vh_core, driver)[0]
+
+
+def cross_parse_tp_many(traces, vh_core=None, driver=None):
+    """[(number of checks, [message])] per trace; the decoders are run once for all traces"""
     vh_core = vh_core or harness_bin("vh-core")
     driver = driver or DRIVER
-    qb, sb, q_role = tp_blocks(tr)
+    blocks = [tp_blocks(tr) for tr in traces]
+    q_ops = [f"dec {q_role} {hexs(qb)}" for qb, sb, q_role in blocks if qb is not None]
+    s_ops = [f"dec {'server' if q_role == 'client' else 'client'} {hexs(sb)}" for qb, sb, q_role in blocks if sb is not None]
+    real = model = rfc = rfc_s = []
+    if q_ops:
+        _, real, _ = run_lines([vh_core, "tp"], q_ops)
+        _, model, _ = run_lines([driver, "tp"], q_ops)
+    if q_ops or s_ops:
+        _, both, _ = run_lines([driver, "tp-rfc"], q_ops + s_ops)
+        rfc, rfc_s = both[:len(q_ops)], both[len(q_ops):]
+    q_res = dict(zip(q_ops, zip(real + ["?"] * len(q_ops), model + ["?"] * len(q_ops), rfc + ["?"] * len(q_ops))))
+    s_res = dict(zip(s_ops, rfc_s + ["?"] * len(s_ops)))
+    return [_tp_judge(tr, blk, q_res, s_res) for tr, blk in zip(traces, blocks)]
+
+
+def _tp_judge(tr, blk, q_res, s_res):
+    qb, sb, q_role = blk
     s_role = "server" if q_role == "client" else "client"
     bad = []
     n = 0
@@ -486,11 +512,7 @@ def cross_parse_tp(tr, vh_core=None, driver=None):
         if tr.peer_of("established"):
             bad.append("quiche's transport parameter extension not found in the CRYPTO frames s2n-quic processed although the handshake completed")
         return n, bad
-    op = f"dec {q_role} {hexs(qb)}"
-    rc, real, _ = run_lines([vh_core, "tp"], [op])
-    rc2, rfc, _ = run_lines([driver, "tp-rfc"], [op])
-    rc3, model, _ = run_lines([driver, "tp"], [op])
-    real, rfc, model = (real or ["?"])[0], (rfc or ["?"])[0], (model or ["?"])[0]
+    real, model, rfc = q_res.get(f"dec {q_role} {hexs(qb)}", ("?", "?", "?"))
     n += 3
     if not rfc.startswith("ok"):
         bad.append(f"Lean Rfc.TransportParams rejects quiche's {q_role} block {hexs(qb)}: {rfc}")
@@ -518,17 +540,14 @@ def cross_parse_tp(tr, vh_core=None, driver=None):
         # what quiche was configured to declare is what s2n-quic understood
         for knob, (field, default) in Q_DECLARED.items():
             v = int(tr.params.get(knob, 0)) or default
-            if knob in ("q.data_window", "q.bidi_local", "q.bidi_remote", "q.uni", "q.max_bidi", "q.max_uni", "q.max_idle_ms") and knob in tr.params:
-                v = int(tr.params[knob])
             n += 1
             if got.get(field) != str(v):
                 bad.append(f"quiche was configured with {knob}={v} but s2n-quic decoded {field}={got.get(field)}")
     # s2n-quic's own block: the RFC table must accept it, and quiche's reading must be the RFC reading
     if sb is not None:
-        op = f"dec {s_role} {hexs(sb)}"
-        rc, rfc, _ = run_lines([driver, "tp-rfc"], [op])
+        rfc = s_res.get(f"dec {s_role} {hexs(sb)}", "?")
         n += 1
-        if not (rfc and rfc[0].startswith("ok")):
+        if not rfc.startswith("ok"):
             bad.append(f"Lean Rfc.TransportParams rejects the {s_role} block s2n-quic sent: {hexs(sb)}")
         try:
             py = qp.parse_tp_block(sb)
